@@ -1,4 +1,4 @@
-import PikaVerif.Lemmas.BarrierU12
+import PikaVerif.Lemmas.BarrierU19
 /-!
 # C09u (barrier part, coarse model) — termination measure and final states of barrier programs
 
@@ -20,18 +20,26 @@ stutter nor a miss strictly decreases the measure `phi`, a miss never raises it 
 (`cas2` miss: the preceding `seen` had paid `1`; `cas` miss: `0`), and the log length is bounded
 by `phi(initial) + stutters + 2·misses`.
 
-What is *not* proved here: a bound on the number of misses, hence no unconditional termination
-bound.  (Sketch of the missing argument: within a phase a node that was seen full stays full, so a
-thread misses each node of a round at most once before it reaches the free slot that
-`C09B_slot_available` guarantees; this needs a ghost "start position / wrapped" per thread, the
-cursor alone does not determine how far the sweep has got.  With arbitrary `start` positions the
-number of misses is quadratic in `N` per phase — `N` threads that all start at node 0 make about
-`N²/4` misses in round 0 — so a bound `c·N·P + c'` on the full log length is not to be expected
-in this model; this quadratic lower bound is an observation, not a theorem of this file.)
-The explicit bound proved for the events that are neither stutters nor misses is
-`3·N²·P + 12·N·P + N` (no drops) resp. `N·(P·(3N+12) + 3N+13) + N` (with drops), plus one per `cas2`
-miss; it is quadratic in `N` because the rank charges every arrival for all `≤ N` halvings of
-`m`; it is linear in `P`.
+**Misses are bounded (follow-up).**  Instrumented layer (`Lemmas/BarrierU13`): `GSt` = `PSt` + two
+ghosts per thread, `st` (cursor at which the thread entered its current round) and `w` (the cursor
+has wrapped from `e` to `0` in this round); `gstep` accepts exactly what `pstep` accepts
+(`runLog_pstep_gstep` / `runLog_gstep_pstep`: same logs, same program states).  Sweep invariant `SW`
+(`sw_step`): the nodes a searching thread has passed since it entered the round are full for the
+current phase (a full ticket stays full within a phase, `step_tkMono`), and by
+`C09B_slot_available` the round is never completely full, so the cursor never comes back to `st`.
+Measure `phi2` = rank of the pc (`5·m` per remaining round) + `2·bud` (`bud` = distance the cursor
+can still travel in this round, `≤ 2e`) + potential of the operations not yet started: it strictly
+decreases with **every** accepted event that is not the poll stutter, misses included
+(`C09u_barrier_measure_full`).  Hence `C09u_barrier_length`: `log.length ≤ boundG N P + stutters log`
+with `boundG N P = N·(P·(6N+14) + 6N+15) + N` — quadratic in `N`, linear in `P` (the number of
+misses really is quadratic in `N` per phase when all threads start at node 0, so a bound
+`c·N·P + c'` is not to be expected; that lower bound is an observation, not a theorem here) —
+`C09u_barrier_misses_bounded`, and `C09u_barrier_maximal_exists`: every accepted log extends by
+non-stutter events to a maximal state.  The earlier `_partial` theorems (bounds modulo misses, with
+the smaller constant `3N`) are kept.
+
+What is *not* proved: a bound linear in `N·P` for the events that are not misses (the ranks charge
+every arrival for all halvings of `m`; the true count of non-miss events is linear in `N·P`).
 -/
 namespace PikaVerif.C09uBarrier
 open PikaVerif PikaVerif.Barrier PikaVerif.C09Barrier
@@ -84,8 +92,8 @@ theorem C09u_barrier_measure (B : Nat) (p p' : PSt) (e : Ev) (hB : p.s.expected 
     (isMiss e = true → phi B p' ≤ phi B p + (if isMiss2 e then 1 else 0)) :=
   ⟨(phi_step B p p' e hB h).1, (phi_step B p p' e hB h).2.2⟩
 
-/-- **Termination modulo stutters and misses, explicit bound** (`_partial`: the full statement
-    would bound `log.length − stutters log`; missing is a bound on `misses log`, see the header).
+/-- **Termination modulo stutters and misses, explicit bound** (`_partial`: bounds modulo the misses,
+    with the smaller constants; the unconditional statement is `C09u_barrier_length` below).
     For `N` threads on a barrier of `N`, each doing `P` × `arrive_and_wait` and then optionally
     `arrive_and_drop`, every accepted log has at most
     `boundAwd N P = N·(P·(3N+12) + 3N+13) + N` events that are neither stutters nor misses, plus
@@ -113,6 +121,59 @@ theorem C09u_barrier_length_aw_partial (N P : Nat) (log : List Ev) (p : PSt)
   have h3 := misses2_le log
   have h4 := length_split log
   omega
+
+/-! ## (a') unconditional termination modulo the poll stutter -/
+
+/-- **Measure, full strength.**  On the instrumented layer (same accepted logs as the program
+    layer) every accepted event that is not the poll stutter — a CAS miss included — strictly
+    decreases `phi2 B`, in every state that satisfies the run invariants `GInv B` (reachable, sweep
+    invariant, `expected ≤ B`), and the invariants are preserved. -/
+theorem C09u_barrier_measure_full (B : Nat) (g g' : GSt) (e : Ev) (hi : GInv B g)
+    (h : gstep g e = some g') :
+    GInv B g' ∧ (isStutter e = false → phi2 B g' < phi2 B g) ∧ (isStutter e = true → g' = g) :=
+  ⟨ginv_step B g g' e hi h, fun hst => phi2_step B g g' e hi.r hi.sw hi.b h hst,
+   fun hst => gstep_stutter g g' e hst h⟩
+
+/-- the instrumented layer accepts exactly the logs of the program layer, with the same program
+    states (so bounds on `gstep` logs are bounds on `pstep` logs) -/
+theorem C09u_barrier_instrumented_same (g : GSt) (log : List Ev) (p' : PSt) :
+    runLog pstep g.p log = some p' ↔ ∃ g', runLog gstep g log = some g' ∧ g'.p = p' :=
+  ⟨runLog_pstep_gstep log g p', fun ⟨g', h1, h2⟩ => h2 ▸ runLog_gstep_pstep log g g' h1⟩
+
+/-- **Termination modulo the poll stutter only, explicit bound.**  `N` threads on a barrier of
+    `N`, each `P` × `arrive_and_wait` and then optionally `arrive_and_drop`: every accepted log has
+    at most `boundG N P = N·(P·(6N+14) + 6N+15) + N` events that are not poll stutters.
+    Quadratic in `N`, linear in `P`. -/
+theorem C09u_barrier_length (N P : Nat) (d : Nat → Bool) (log : List Ev) (p : PSt)
+    (h : runLog pstep (pinit N N (awdProg P d)) log = some p) :
+    log.length ≤ boundG N P + stutters log :=
+  length_bound N P d log p h
+
+/-- **The misses are bounded**: the CAS misses of a log, together with all its other non-stutter
+    events, number at most `boundG N P`. -/
+theorem C09u_barrier_misses_bounded (N P : Nat) (d : Nat → Bool) (log : List Ev) (p : PSt)
+    (h : runLog pstep (pinit N N (awdProg P d)) log = some p) :
+    misses log ≤ boundG N P ∧ progress log + misses log ≤ boundG N P := by
+  have h1 := length_bound N P d log p h
+  have h2 := length_split log
+  omega
+
+theorem awProg_eq (P : Nat) : awProg P = awdProg P (fun _ => false) := by
+  funext t; simp [awProg, awdProg]
+
+/-- the same for the program without drops -/
+theorem C09u_barrier_length_aw (N P : Nat) (log : List Ev) (p : PSt)
+    (h : runLog pstep (pinit N N (awProg P)) log = some p) :
+    log.length ≤ boundG N P + stutters log ∧ misses log ≤ boundG N P := by
+  rw [awProg_eq] at h
+  exact ⟨length_bound N P _ log p h, (C09u_barrier_misses_bounded N P _ log p h).1⟩
+
+/-- **Maximal runs exist**: every accepted log of these programs can be extended, by events that
+    are not stutters, to a maximal state (to which the final-state theorems below apply). -/
+theorem C09u_barrier_maximal_exists (N P : Nat) (d : Nat → Bool) (log : List Ev) (p : PSt)
+    (h : runLog pstep (pinit N N (awdProg P d)) log = some p) :
+    ∃ ext p', runLog pstep (pinit N N (awdProg P d)) (log ++ ext) = some p' ∧ Maximal p' ∧ stutters ext = 0 :=
+  maximal_exists N P d log p h
 
 /-! ## (b) final states of maximal runs -/
 
@@ -209,6 +270,8 @@ example : ((runLog pstep (pinit 2 2 (awProg 2)) twoLog).map
   decide
 
 example : stutters twoLog = 2 ∧ misses twoLog = 0 ∧ progress twoLog = 34 ∧ boundAw 2 2 = 74 := by decide
+
+example : boundG 2 2 = 2 * (2 * 26 + 27) + 2 ∧ twoLog.length - stutters twoLog = 34 := by decide
 
 /-- a miss is accepted: three participants' worth of tree (`N = 3`), thread 2 starts at node 0
     after it was filled by threads 0 and 1 -/
